@@ -49,10 +49,15 @@ def exc_tag(e):
     return type(e).__name__
 
 
+_LOCK = __import__('threading').Lock()          # a value that can be neither copied nor pickled
+
+
 def pyval(v):
     """model value -> python value"""
     if v == '-':
         return None
+    if v == 'lk':
+        return _LOCK
     if isinstance(v, str) and len(v) > 1 and v[0] == 'm' and v[1:].isdigit():
         return ['m', int(v[1:])]          # a MUTABLE value: the step that receives it mutates it in place
     if isinstance(v, str) and len(v) > 1 and v[0] == 'v' and v[1:].isdigit():
@@ -64,6 +69,8 @@ def mval(v):
     """python value -> model value"""
     if v is None:
         return '-'
+    if v is _LOCK:
+        return 'lk'
     if v is True:
         return 'True'
     if v is False:
